@@ -28,6 +28,9 @@ POOL = [None, False, True, 0, 1, -3, 0.0, -0.0, 0.5, '', 'a', [], [0], {{}}, {{'
         datetime.date(2024, 1, 2), len, re.compile('a')]
 
 
+NUMS = [0, 3, -2, 0.5]
+
+
 def spec_truthy(v):
     # language reference: null, false, 0, '' and the empty array are false; everything else (incl. {{}}) is true
     if v is None:
@@ -75,18 +78,21 @@ def run_real(bits, ns, px):
     def vv(args, options):
         return _pick(px[int(args[0]) - 1])
 
+    def nn(args, options):
+        return NUMS[px[int(args[0]) - 1] % 4]
+
     def tt(args, options):
         tr.append(args[0] if args else None)
 
     def aa(args, options):
         return _arr(int(args[0]), ns)
-    g = {{'cc': cc, 'tt': tt, 'aa': aa, 'vv': vv}}
+    g = {{'cc': cc, 'tt': tt, 'aa': aa, 'vv': vv, 'nn': nn}}
     try:
         r = ('ok', execute_script(MODEL, {{'globals': g, 'maxStatements': 300}}))
     except BareScriptRuntimeError as e:
         r = ('err', 'out' if 'oracle exhausted' in str(e) else norm_error(e))
     with untraced():       # harness-side bookkeeping over concrete key strings only; values are not inspected
-        names = [n for n in g if n not in LIB_NAMES and not n.startswith('__bareScript') and n not in ('cc', 'tt', 'aa', 'vv')]
+        names = [n for n in g if n not in LIB_NAMES and not n.startswith('__bareScript') and n not in ('cc', 'tt', 'aa', 'vv', 'nn')]
     final = dict((n, g[n]) for n in names if not callable(g[n]))
     return r, tr, final, k[0]
 
@@ -106,6 +112,9 @@ class _Host:
 
     def vv(self, j):
         return spec_truthy(_pick(self.px[j - 1]))
+
+    def nn(self, j):
+        return NUMS[self.px[j - 1] % 4]
 
     def tt(self, v):
         self.tr.append(v)
@@ -180,6 +189,23 @@ def _params(narr, nvv):
     return ', '.join(ps), pre
 
 
+def _condform(body, form):
+    """replace the condition of every outermost if / while by a compound form over cc() / nn(1)"""
+    mk = {'not': ('not', ('cc',)), 'grp': ('grp', ('cc',)), 'neg': ('neg', 1), 'notneg': ('not', ('neg', 1)), 'and': ('and', ('cc',), ('cc',)),
+          'or': ('or', ('cc',), ('neg', 1)), 'notgrp': ('not', ('grp', ('and', ('cc',), ('cc',))))}[form]
+    out = []
+    for st in body:
+        if st[0] == 'if' and not (st[1][0][1] and st[1][0][1][0][0] in ('break', 'continue')):
+            out.append(('if', [(mk, b) for _c, b in st[1]], st[2]))
+        elif st[0] == 'while':
+            out.append(('while', mk if form not in ('neg', 'notneg') else ('and', mk, ('cc',)), st[2]))
+        elif st[0] == 'func':
+            out.append(('func', st[1], st[2], _condform(st[3], form)))
+        else:
+            out.append(st)
+    return out
+
+
 def _count_vv(body):
     n = 0
     for st in body:
@@ -187,12 +213,16 @@ def _count_vv(body):
             for c, b in st[1]:
                 if c[0] == 'vv':
                     n = max(n, c[1])
+                if 'neg' in repr(c):
+                    n = max(n, 1)
                 n = max(n, _count_vv(b))
             if st[2]:
                 n = max(n, _count_vv(st[2]))
         elif st[0] == 'while':
             if st[1][0] == 'vv':
                 n = max(n, st[1][1])
+            if 'neg' in repr(st[1]):
+                n = max(n, 1)
             n = max(n, _count_vv(st[2]))
         elif st[0] == 'for':
             n = max(n, _count_vv(st[4]))
@@ -245,6 +275,15 @@ def special_specs():
     for outer in (('ifelse', 'n', 1), ('ifelif', 'n', 0), ('while', 'b', 0), ('for', 'n', 0), ('forix', 'u', 0)):
         for k in skel.LOOP_KINDS:
             out.append((outer, (k, 'u', 0)))
+    # break / continue two if-levels deep (also in an else branch), in every loop kind, alone and nested in a loop
+    for k in skel.LOOP_KINDS:
+        for f in ('B', 'C', 'BC', 'bB'):
+            out.append(((k, f, 0),))
+        out.append((('while', 'b', 0), (k, 'B', 0)))
+    # if chains whose branches all end in `return` (function scope only makes sense; the global variant ends the script)
+    for kind in ('ifelse', 'ifelif', 'ifelifelse'):
+        out.append(((kind, 'r', 99),))
+        out.append((('for', 'n', 0), (kind, 'r', 99)))
     # branches with an empty body (the lowering then has two jumps / a jump and a label back to back), alone and inside a loop
     for kind, nbr in (('if', 1), ('ifelse', 2), ('ifelif', 2), ('ifelifelse', 3)):
         for e in range(nbr):
@@ -351,6 +390,13 @@ def plan(tier, seed, workdir, prop='C01'):
         prog = _vvify(prog, [0])
         add_shape(p, workdir, f'{skel.spec_name(spec)}', prog, narr, 4, timeout, 'value')
         n += 1
+    # condition forms other than a bare call: !c, (c), -x, !-x, c && c, c || -x, !(c && c)
+    for form in ('not', 'grp', 'neg', 'notneg', 'and', 'or', 'notgrp'):
+        for spec in [s for s in skel.shape_specs(1) if s[0][1] in ('n', 'b')]:
+            for scope in ('global',) if tier == 'quick' else ('global', 'function'):
+                prog, narr = skel.build(spec, scope)
+                add_shape(p, workdir, f'{form}_{skel.spec_name(spec)}_{scope[0]}', _condform(prog, form), narr, maxbits, timeout, 'condform')
+                n += 1
     p.extra_coverage['programs'] = n
     p.rule = ('programs = nesting shapes of {if,if-else,if-elif,if-elif-else,while,for,for-with-index} x {no,break,continue,both} '
               'enumerated by the generator; per program one CrossHair condition over symbolic oracle bits / array lengths / '
